@@ -15,13 +15,6 @@ Proof.
   - unfold umlog. rewrite map_app, rev_app_distr, app_assoc. reflexivity.
 Qed.
 
-Lemma nodup_names_inj (m : lmap) x y : NoDup (map l_name m) -> In x m -> In y m -> l_name x = l_name y -> x = y.
-Proof.
-  induction m as [|z m IH]; cbn; [intros _ []|]. intros ND Hx Hy E. inversion ND as [|? ? Hn ND']; subst.
-  destruct Hx as [->|Hx], Hy as [->|Hy]; auto.
-  - exfalso. apply Hn. rewrite E. now apply in_map.
-  - exfalso. apply Hn. rewrite <- E. now apply in_map.
-Qed.
 
 Lemma forall2_lm_set_in (R R' : layer -> layer -> Prop) m M n l l' :
   Forall2 R m M -> (forall x y, R x y -> l_name y = l_name x) ->
@@ -118,10 +111,8 @@ Qed.
 Definition RL (done : list bytes) (T : list kline) (x l : layer) : Prop :=
   same_static x l
   /\ l_overlain l = overlain0 T (build_path c x)
-  /\ (l_state x = st_error -> l_kmounts l = [])
-  /\ (l_state x <> st_error ->
-      l_mbusy l = usersb x
-      /\ (~ In (l_name x) done -> l_kmounts l = kmounts0 tab0 (build_path c x))).
+  /\ l_mbusy l = usersb x
+  /\ (~ In (l_name x) done -> l_kmounts l = kmounts0 tab0 (build_path c x)).
 
 Definition KI (done : list bytes) (T : list kline) : Prop :=
   wf_table T = true /\ NoDup (kids T)
@@ -135,8 +126,7 @@ Proof. intros [[H _] _]. exact H. Qed.
 Lemma RL_weaken done T n x l : RL done T x l -> RL (n :: done) T x l.
 Proof.
   intros (A & B & C & D). split; [exact A|]. split; [exact B|]. split; [exact C|].
-  intros Hx. destruct (D Hx) as [D1 D2]. split; [exact D1|].
-  intros Hn. apply D2. intros Hin. apply Hn. now right.
+  intros Hn. apply D. intros Hin. apply Hn. now right.
 Qed.
 Lemma KI_weaken done T n : KI done T -> KI (n :: done) T.
 Proof.
@@ -165,7 +155,8 @@ Definition step_calls (s : mst) (x : layer) (ks' : kstate) (iss : list bytes) : 
   legal_seq (um_legal (in_roots roots)) (w_ks (s_w s)) iss = true
   /\ ku_replay (w_ks (s_w s)) iss = ks'
   /\ dels (fun k => at_or_below (build_path c x) (k_mp k)) (ks_tab (w_ks (s_w s))) (ks_tab ks')
-  /\ (forall t, In t iss -> at_or_below (build_path c x) t = true).
+  /\ (forall t, In t iss -> at_or_below (build_path c x) t = true)
+  /\ (iss <> [] -> overlain0 (ks_tab (w_ks (s_w s))) (build_path c x) = false).
 
 (* one layer of the loop: either the loop goes on, or a call failed (impossible with
    well-formed parent ids) *)
@@ -177,17 +168,16 @@ Lemma heavy_step n rest done ld busy s x :
     /\ Forall2 (RL (n :: done) (ks_tab ks')) m (ld_map ld') /\ KI (n :: done) (ks_tab ks')
     /\ step_calls s x ks' iss
     /\ ((busy' = true /\ iss = [] /\ ks' = w_ks (s_w s)
-         /\ (l_state x <> st_error ->
-             usersb x = true \/ overlain0 (ks_tab (w_ks (s_w s))) (build_path c x) = true))
-        \/ (busy' = busy /\ (l_state x <> st_error -> usersb x = false /\ nothing_below (ks_tab ks') x))))
+         /\ (usersb x = true \/ overlain0 (ks_tab (w_ks (s_w s))) (build_path c x) = true))
+        \/ (busy' = busy /\ usersb x = false /\ nothing_below (ks_tab ks') x)))
   \/ (exists ks' iss,
         um_go e c (n :: rest) ld busy s = (Fail, st_after e s ks' iss)
         /\ step_calls s x ks' iss /\ iss <> [] /\ pwf (ks_tab (w_ks (s_w s))) <> true).
 Proof.
   intros Hx Hxn Hnd HF HK. set (T := ks_tab (w_ks (s_w s))) in *.
   destruct HK as (Kwf & Kid & Kin & Kfl).
-  destruct (forall2_find _ _ x HF Hx (RL_name done T)) as (l & Hg & (Hs & Ho & Herr & Hne)).
-  rewrite Hxn in Hg.
+  destruct (forall2_find _ _ x HF Hx (RL_name done T)) as (l & Hg & (Hs & Ho & Hm & Hk)).
+  rewrite Hxn in Hg. specialize (Hk ltac:(now rewrite Hxn)).
   destruct (ku_seq (w_ks (s_w s)) (rev (l_kmounts l))) as [[ok ks'] iss] eqn:Eku.
   rewrite (um_go_cons e c n rest ld busy s l Hp Hg ok ks' iss Eku Kwf).
   assert (Hsame : forall b1, exists ld' busy' ks1 iss1,
@@ -198,28 +188,26 @@ Proof.
   { intros b1. exists ld, b1, (w_ks (s_w s)), []. rewrite st_after_nil. split; [reflexivity|].
     split. { eapply forall2_impl_in; [exact HF|]. intros a b2 _. apply RL_weaken. }
     split. { apply KI_weaken. repeat split; assumption. }
-    split. { split; [reflexivity|]. split; [reflexivity|]. split; [constructor|intros t []]. }
+    split. { split; [reflexivity|]. split; [reflexivity|]. split; [constructor|]. split; [intros t []|congruence]. }
     auto. }
   destruct (error_if_busy l false) eqn:Ebusy.
   { left. destruct (Hsame true) as (ld' & busy' & ks1 & iss1 & A1 & A2 & A3 & A4 & A8 & A9 & A10).
     exists ld', busy', ks1, iss1. repeat (split; [assumption|]). left. repeat (split; [assumption|]).
-    intros Hxe. destruct (Hne Hxe) as [Hm _].
     unfold error_if_busy in Ebusy. rewrite Hm, Ho in Ebusy. now apply orb_true_iff in Ebusy. }
   destruct (l_kmounts l) as [|t0 ts0] eqn:Ekm.
   { left. destruct (Hsame busy) as (ld' & busy' & ks1 & iss1 & A1 & A2 & A3 & A4 & A8 & A9 & A10).
-    exists ld', busy', ks1, iss1. repeat (split; [assumption|]). right. split; [exact A8|].
-    intros Hxe. destruct (Hne Hxe) as [Hm Hk]. specialize (Hk ltac:(now rewrite Hxn)). split.
+    exists ld', busy', ks1, iss1. repeat (split; [assumption|]). right. split; [exact A8|]. split.
     { unfold error_if_busy in Ebusy. rewrite Hm in Ebusy. now apply orb_false_iff in Ebusy. }
     intros k Hk0. rewrite A10 in Hk0. destruct (at_or_below (build_path c x) (k_mp k)) eqn:Eb; [|reflexivity]. exfalso.
     assert (Hin : In (k_mp k) (kmounts0 tab0 (build_path c x))).
     { unfold kmounts0. apply sort_in. rewrite <- (Kfl x Hx ltac:(now rewrite Hxn)). apply filter_In.
       split; [apply in_map; exact Hk0|exact Eb]. }
     rewrite <- Hk in Hin. exact Hin. }
-  (* the layer is unmounted; it is not in error state *)
-  assert (Hxe : l_state x <> st_error) by (intros E; specialize (Herr E); discriminate).
-  destruct (Hne Hxe) as [Hm Hk]. specialize (Hk ltac:(now rewrite Hxn)).
+  (* the layer is unmounted *)
   assert (Hub : usersb x = false).
   { unfold error_if_busy in Ebusy. rewrite Hm in Ebusy. now apply orb_false_iff in Ebusy. }
+  assert (Hnov : overlain0 T (build_path c x) = false).
+  { unfold error_if_busy in Ebusy. rewrite Ho in Ebusy. now apply orb_false_iff in Ebusy. }
   assert (Hfeq : filter (at_or_below (build_path c x)) (map k_mp T) = filter (at_or_below (build_path c x)) (map k_mp tab0)).
   { apply Kfl; [exact Hx|now rewrite Hxn]. }
   destruct (ku_seq_core (build_path c x) (in_roots roots) (Hgood x Hx)) with
@@ -231,6 +219,7 @@ Proof.
   rewrite Eku in R. injection R as <- <- <-.
   assert (Hcalls : step_calls s x ks' iss).
   { split; [exact L|]. split; [eapply ku_seq_replay_eq; eauto|]. split; [exact D|].
+    split; [|intros _; exact Hnov].
     intros t Ht. apply (ku_seq_sub _ _ _ _ _ Eku) in Ht. rewrite <- in_rev in Ht. rewrite Hk in Ht.
     eapply kmounts0_below; eauto. }
   destruct ok.
@@ -257,8 +246,7 @@ Proof.
     { unfold ld1, refresh_pure. cbn [ld_map]. clear -HF. induction HF as [|a b0 m0 M Hab HF IH]; cbn [map]; constructor; [|exact IH].
       destruct Hab as ((S1 & S2 & S3 & S4 & S5) & B & C & D0). split; [repeat split; assumption|].
       split. { cbn [l_overlain set_overlain]. now rewrite (build_path_static c a b0 S3). }
-      split; [exact C|]. intros Ha. destruct (D0 Ha) as [D1 D2]. split; [exact D1|].
-      intros Hn. apply D2. intros Hin. apply Hn. now right. }
+      split; [exact C|]. intros Hn. apply D0. intros Hin. apply Hn. now right. }
     pose proof (find_layerstate_fields c (w_fs (s_w s)) ld1 l1) as Hf. unfold lfields in Hf.
     injection Hf as F1 F2 F3 F4 F5 F6 F7 F8 F9 F10.
     destruct (lm_get_name _ _ _ Hg1) as [Hn1 _].
@@ -268,10 +256,10 @@ Proof.
     subst y. split; [|split; [|split]].
     - unfold same_static. rewrite F1, F2, F5, F3, F4. auto.
     - now rewrite F8.
-    - intros E. contradiction.
-    - intros _. split; [rewrite F6; now destruct (D0 Hxe)|]. intros Hn. exfalso. apply Hn. now left. }
+    - now rewrite F6.
+    - intros Hn. exfalso. apply Hn. now left. }
   split; [exact HK'|]. split; [exact Hcalls|].
-  right. split; [reflexivity|]. intros _. split; [exact Hub|exact Hrem].
+  right. split; [reflexivity|]. split; [exact Hub|exact Hrem].
 Qed.
 
 Lemma P_names_mono names names' k : (forall n, In n names -> In n names') ->
@@ -286,13 +274,15 @@ Definition loop_calls (names : list bytes) (s : mst) (ks' : kstate) (iss sub : l
   legal_seq (um_legal (in_roots roots)) (w_ks (s_w s)) iss = true
   /\ ku_replay (w_ks (s_w s)) iss = ks'
   /\ dels (P_names names) (ks_tab (w_ks (s_w s))) (ks_tab ks')
-  /\ blocks sub iss /\ sublist sub names.
+  /\ blocks sub iss /\ sublist sub names
+  /\ (forall t, In t iss -> exists x, In x m /\ at_or_below (build_path c x) t = true
+                                  /\ overlain0 (ks_tab ks') (build_path c x) = false).
 
 (* ... and about the layers when it runs to the end *)
 Definition loop_end (names : list bytes) (busy b' : bool) (ks' : kstate) : Prop :=
-  (b' = false -> busy = false /\ forall x, In x m -> In (l_name x) names -> l_state x <> st_error ->
+  (b' = false -> busy = false /\ forall x, In x m -> In (l_name x) names ->
                    usersb x = false /\ nothing_below (ks_tab ks') x)
-  /\ (Povl -> forall x, In x m -> In (l_name x) names -> l_state x <> st_error ->
+  /\ (Povl -> forall x, In x m -> In (l_name x) names ->
         nothing_below (ks_tab ks') x \/ usersb x = true \/ overlain0 (ks_tab ks') (build_path c x) = true).
 
 Lemma heavy_loop : forall names done ld busy s,
@@ -307,7 +297,7 @@ Lemma heavy_loop : forall names done ld busy s,
 Proof.
   induction names as [|n rest IH]; intros done ld busy s ND HS Hnames HF HK.
   - exists (Ret (busy, ld)), (w_ks (s_w s)), [], []. rewrite st_after_nil. split; [reflexivity|].
-    split. { split; [reflexivity|]. split; [reflexivity|]. split; [constructor|]. split; constructor. }
+    split. { split; [reflexivity|]. split; [reflexivity|]. split; [constructor|]. split; [constructor|]. split; [constructor|intros t []]. }
     right. exists busy, ld. split; [reflexivity|]. split.
     + intros ->. split; [reflexivity|intros x _ []].
     + intros _ x _ [].
@@ -316,23 +306,31 @@ Proof.
     assert (Hmono1 : forall k, at_or_below (build_path c x) (k_mp k) = true -> P_names (l_name x :: rest) k = true).
     { intros k Hk. unfold P_names. apply existsb_exists. exists x.
       split; [exact Hx|]. rewrite Hk, andb_true_r. apply memb_In. now left. }
+    assert (Hov_keep : forall iss1, (forall t, In t iss1 -> at_or_below (build_path c x) t = true) ->
+              (iss1 <> [] -> overlain0 (ks_tab (w_ks (s_w s))) (build_path c x) = false) ->
+              forall T', (forall k, In k T' -> In k (ks_tab (w_ks (s_w s)))) ->
+              forall t, In t iss1 -> exists x0, In x0 m /\ at_or_below (build_path c x0) t = true
+                                          /\ overlain0 T' (build_path c x0) = false).
+    { intros iss1 Ht1 Hov1 T' Hsub t Ht. exists x. split; [exact Hx|]. split; [now apply Ht1|].
+      eapply overlain0_incl; [exact Hsub|]. apply Hov1. intros E. rewrite E in Ht. exact Ht. }
     destruct (heavy_step (l_name x) rest done ld busy s x Hx eq_refl Hnd HF HK)
-      as [(ld1 & busy1 & ks1 & iss1 & G1 & HF1 & HK1 & (L1 & R1 & D1 & Ht1) & Hst)
-         |(ks1 & iss1 & G1 & (L1 & R1 & D1 & Ht1) & Hne1 & Hpw1)].
+      as [(ld1 & busy1 & ks1 & iss1 & G1 & HF1 & HK1 & (L1 & R1 & D1 & Ht1 & Hov1) & Hst)
+         |(ks1 & iss1 & G1 & (L1 & R1 & D1 & Ht1 & Hov1) & Hne1 & Hpw1)].
     2:{ (* a call failed *)
         exists Fail, ks1, iss1, [l_name x]. split; [exact G1|].
         split. { split; [exact L1|]. split; [exact R1|]. split; [eapply dels_mono; [|exact D1]; exact Hmono1|].
                  split. { rewrite <- (app_nil_r iss1). apply bl_cons; [exact Hne1| |constructor].
                           intros t Ht. apply owner_of; [exact Hx|]. now apply Ht1. }
-                 apply sl_keep. apply sublist_nil. }
+                 split; [apply sl_keep; apply sublist_nil|].
+                 apply (Hov_keep iss1 Ht1 Hov1). intros k Hk. eapply dels_in; eauto. }
         left. split; [reflexivity|exact Hpw1]. }
     destruct (IH (l_name x :: done) ld1 busy1 (st_after e s ks1 iss1) ND' HS') as
-      (o & ks' & iss2 & sub2 & G2 & (L2 & R2 & D2 & B2 & S2) & Hout).
+      (o & ks' & iss2 & sub2 & G2 & (L2 & R2 & D2 & B2 & S2 & O2) & Hout).
     { intros n' Hn'. destruct (Hnames n' (or_intror Hn')) as (A & B). split; [|exact B].
       intros [E|Hin]; [|contradiction]. apply Hnr. now rewrite E. }
     { exact HF1. }
     { exact HK1. }
-    cbn [st_after s_w w_ks] in L2, R2, D2, Hout.
+    cbn [st_after s_w w_ks] in L2, R2, D2, O2, Hout.
     assert (Hdels : dels (P_names (l_name x :: rest)) (ks_tab (w_ks (s_w s))) (ks_tab ks')).
     { eapply dels_trans.
       - eapply dels_mono; [|exact D1]. exact Hmono1.
@@ -345,20 +343,22 @@ Proof.
       split; [exact Hdels|].
       split. { destruct iss1 as [|t1 i1] eqn:Ei; [exact B2|]. rewrite <- Ei in *. apply bl_cons; [congruence| |exact B2].
                intros t Ht. apply owner_of; [exact Hx|]. now apply Ht1. }
-      destruct iss1; [now apply sl_skip|now apply sl_keep]. }
+      split. { destruct iss1; [now apply sl_skip|now apply sl_keep]. }
+      intros t Ht. apply in_app_or in Ht as [Ht|Ht]; [|now apply O2].
+      apply (Hov_keep iss1 Ht1 Hov1); [|exact Ht]. intros k Hk. eapply dels_in; eauto. }
     destruct Hout as [(Eo & Hpw2)|(b' & ld' & Eo & Ha & Hb)].
     { left. split; [exact Eo|]. intros Hp0. apply Hpw2. eapply dels_pwf; eauto. }
     right. exists b', ld'. split; [exact Eo|]. split.
     + intros Eb. destruct (Ha Eb) as [Hb1 Hrest].
       destruct Hst as [(Hb' & _)|(Hb' & Hux)]; [congruence|].
-      split; [congruence|]. intros y Hy [Hyn|Hyn] Hye.
-      * rewrite (nodup_names_inj m y x NDn Hy Hx (eq_sym Hyn)) in *. destruct (Hux Hye) as [Hu Hnb].
+      split; [congruence|]. intros y Hy [Hyn|Hyn].
+      * rewrite (nodup_names_inj m y x NDn Hy Hx (eq_sym Hyn)) in *. destruct Hux as [Hu Hnb].
         split; [exact Hu|]. eapply nothing_below_dels; [exact D2|exact Hnb].
       * now apply Hrest.
-    + intros Hovl y Hy [Hyn|Hyn] Hye; [|now apply Hb].
+    + intros Hovl y Hy [Hyn|Hyn]; [|now apply Hb].
       rewrite (nodup_names_inj m y x NDn Hy Hx (eq_sym Hyn)) in *.
       destruct Hst as [(_ & _ & Eks & Hbz)|(_ & Hux)].
-      * destruct (Hbz Hye) as [Hu|Hov]; [right; now left|].
+      * destruct Hbz as [Hu|Hov]; [right; now left|].
         right. right. rewrite Eks in D2. unfold overlain0 in Hov |- *. apply existsb_exists in Hov as (k & Hk & Hkb).
         apply existsb_exists. exists k. split; [|exact Hkb]. eapply dels_keep; [exact D2|exact Hk|].
         apply andb_true_iff in Hkb as [Hk1 Hk2]. apply beq_true in Hk2.
@@ -369,7 +369,7 @@ Proof.
         pose proof (Hovl k x z (Kin k Hk) Hx Hz Hk1 Hk2 Ez) as Hd.
         apply memb_In in Em. rewrite Forall_forall in HFa. apply (HFa _ Em). split; [|exact Hd].
         intros E. apply Hnr. now rewrite E.
-      * destruct (Hux Hye) as [_ Hnb]. left. eapply nothing_below_dels; [exact D2|exact Hnb].
+      * destruct Hux as [_ Hnb]. left. eapply nothing_below_dels; [exact D2|exact Hnb].
 Qed.
 
 End Heavy.
@@ -379,9 +379,12 @@ Definition all_safe (c : cfgT) (w : wobs) (v : sview) : bool :=
   let m := layers_on_disk c (wo_fs w) in
   let roots := map (build_path c) m in
   let calls := syscalls (v_log v) in
+  let tab' := ks_tab (wo_ks (v_after v)) in
   C03.calls_legal (wo_fs w) (wo_ks w) calls roots
-  && C03.frame roots (ks_tab (wo_ks w)) (ks_tab (wo_ks (v_after v)))
-  && C03.descendants_first m (C03.dedup_adj (map (C03.owner c m) (umount_targets calls))).
+  && C03.frame roots (ks_tab (wo_ks w)) tab'
+  && C03.descendants_first m (C03.dedup_adj (map (C03.owner c m) (umount_targets calls)))
+  && forallb (fun x => negb (overlain_by_mount c tab' x)
+                       || negb (existsb (fun t => at_or_under (build_path c x) t) (umount_targets calls))) m.
 
 Definition all_outcome (c : cfgT) (w : wobs) (v : sview) : bool :=
   let m := layers_on_disk c (wo_fs w) in
@@ -397,15 +400,13 @@ Definition all_outcome (c : cfgT) (w : wobs) (v : sview) : bool :=
   | _ => true
   end.
 
-Lemma step_spec_all c w v : v_cmd v = CUmount [] true -> plain_env (v_env v) = true ->
+Lemma step_spec_all c w v : v_cmd v = CUmount [] true -> plain_env (v_env v) = true -> set_up c w = true ->
   C03.step_spec c w v = all_safe c w v && all_outcome c w v.
-Proof. intros E1 E2. unfold C03.step_spec, all_safe, all_outcome. rewrite E1, E2. reflexivity. Qed.
+Proof.
+  intros E1 E2 E3. unfold C03.step_spec, all_safe, all_outcome. unfold set_up in E3. rewrite E1, E2, E3. reflexivity.
+Qed.
 
 (* ------------------------------------------------------------------ hypotheses (decidable) *)
-(* layers whose layerconfig does not parse are never probed: they must not carry mounts *)
-Definition error_layers_unmounted (c : cfgT) (m : lmap) (tab : list kline) : bool :=
-  forallb (fun x => negb (l_state x =? st_error) || negb (has_mounts c tab x)) m.
-
 (* an overlay whose lower directory is layer x's build root and that is mounted inside some
    layer z's build root belongs to a descendant (or x itself) *)
 Definition ovl_placed (c : cfgT) (m : lmap) (tab : list kline) : bool :=
@@ -431,10 +432,7 @@ Definition C03_all_safe_hyp (c : cfgT) (w : wobs) : bool :=
 Definition C03_all_hyp (c : cfgT) (w : wobs) : bool :=
   let m := layers_on_disk c (wo_fs w) in
   let tab := ks_tab (wo_ks w) in
-  C03_all_safe_hyp c w && pwf tab
-  && error_layers_unmounted c m tab
-  && base_set_up c (wo_fs w) && check_inheritance m
-  && dirs_noslash c && ovl_placed c m tab.
+  C03_all_safe_hyp c w && pwf tab && dirs_noslash c && ovl_placed c m tab.
 
 (* ------------------------------------------------------------------ the loop from the initial world *)
 Section FromWorld.
@@ -479,23 +477,21 @@ Proof.
   apply (heavy_loop e c um m tab Hp NDn Hgood Hap (rev ord) [] ld false s0 ND HS).
   - intros n Hn0. split; [intros []|]. rewrite <- in_rev in Hn0.
     apply (Permutation_in _ Hperm) in Hn0. apply in_map_iff in Hn0 as (x & E & Hx). eauto.
-  - eapply forall2_impl_in; [exact HF|]. intros x l Hx (Hs & Ho & Herr & Hk0).
-    split; [exact Hs|]. split; [exact Ho|]. split.
-    + intros E. now destruct (Herr E) as (_ & K & _).
-    + intros E. destruct (Hk0 E) as (K1 & K2 & _). split; [exact K2|]. intros _. exact K1.
+  - eapply forall2_impl_in; [exact HF|]. intros x l Hx (Hs & Ho & K1 & K2 & _).
+    split; [exact Hs|]. split; [exact Ho|]. split; [exact K2|]. intros _. exact K1.
   - split; [exact Hwf|]. split; [exact NDi|]. split; auto.
 Qed.
 
-(* the three safety conjuncts from the facts about the calls *)
+(* the four safety conjuncts from the facts about the calls *)
 Lemma safe_of_calls names o ks' iss sub lay : NoDup names -> StronglySorted (not_anc m) names ->
   loop_calls c m names s0 ks' iss sub ->
   all_safe c w (MkV e (CUmount [] true) um o (rev (s_log (st_after e s0 ks' iss)))
                     (MkWO (w_fs (s_w (st_after e s0 ks' iss))) (w_ks (s_w (st_after e s0 ks' iss)))) lay) = true.
 Proof.
-  intros ND HS (L & _ & D & Bl & Sl). destruct safe_hyp_parts as (Hwf & NDi & NDn & Hgood & Hap).
+  intros ND HS (L & _ & D & Bl & Sl & Ov). destruct safe_hyp_parts as (Hwf & NDi & NDn & Hgood & Hap).
   unfold all_safe. cbn [v_log v_after st_after s_log s_w w_ks w_fs s0 s0_of wo_ks wo_fs].
   rewrite app_nil_r, rev_involutive, syscalls_umlog, umount_targets_umlog. fold m. fold tab.
-  apply andb_true_iff. split; [apply andb_true_iff; split|].
+  apply andb_true_iff. split; [apply andb_true_iff; split; [apply andb_true_iff; split|]|].
   - unfold C03.calls_legal. rewrite replay_umlog. exact L.
   - apply frame_dels. eapply dels_mono; [|exact D]. intros k Hk0. unfold P_names in Hk0.
     apply existsb_exists in Hk0 as (y & Hy & Hyb). apply andb_true_iff in Hyb as [_ Hyb].
@@ -503,14 +499,26 @@ Proof.
   - rewrite (dedup_blocks c m sub iss Bl).
     + apply descendants_first_intro; [eapply sublist_nodup; eauto|eapply sublist_sorted; eauto].
     + eapply sublist_nodup; eauto.
+  - (* a layer still overlain at the end was not touched *)
+    apply forallb_forall. intros x Hx.
+    destruct (existsb (fun t => at_or_under (build_path c x) t) iss) eqn:Et; [|now rewrite orb_true_r].
+    apply existsb_exists in Et as (t & Ht & Hxt). destruct (Ov t Ht) as (y & Hy & Hyt & Hyo).
+    rewrite at_or_under_below in Hxt by (apply good_root_spec, (Hgood x Hx)).
+    assert (Exy : x = y).
+    { apply (nodup_names_inj m x y NDn Hx Hy).
+      destruct (list_eq_dec ascii_dec (l_name x) (l_name y)) as [E|E]; [exact E|]. exfalso.
+      exact (roots_apart_spec c m x y t Hap Hx Hy E Hxt Hyt). }
+    subst y. change (overlain_by_mount c (ks_tab ks') x) with (overlain0 (ks_tab ks') (build_path c x)).
+    now rewrite Hyo.
 Qed.
 
 Theorem C03_all_safety_proof : all_safe c w (view_of_model c w e (CUmount [] true) um) = true.
 Proof.
   destruct safe_hyp_parts as (Hwf & NDi & NDn & Hgood & Hap).
   destruct (run_cases e c um (CUmount [] true) (world_of w) eq_refl Hwf) as [R|ord Hb Hci Hn R].
-  - rewrite (view_of_run _ _ _ _ _ _ _ R). unfold all_safe. cbn.
-    rewrite frame_dels by constructor. reflexivity.
+  - rewrite (view_of_run _ _ _ _ _ _ _ R). unfold all_safe. cbn [v_log v_after s0_of s_log rev syscalls filter umount_targets flat_map map].
+    rewrite frame_dels by constructor. cbn [C03.calls_legal replay_calls C03.dedup_adj C03.descendants_first andb].
+    apply forallb_forall. intros x _. cbn [existsb negb]. apply orb_true_r.
   - cbn [world_of w_fs w_ks cmd_body] in R, Hn. change (read_layer_files c (wo_fs w)) with m in R, Hn. fold tab in R.
     destruct (all_loop ord Hn) as (ND & HS & _ & o & ks' & iss & sub & G & Hcalls & _).
     rewrite unmount_all_eq in R. unfold bind in R. match type of R with _ = omap Some (let (_, _) := ?X in _) =>
@@ -530,8 +538,9 @@ Theorem C03_all_proof : forall c w e um, plain_env e = true -> C03_all_hyp c w =
 Proof.
   intros c w e um He Hh. unfold C03_all_hyp in Hh. cbv zeta in Hh.
   apply andb_true_iff in Hh as [Hh Hovl]. apply andb_true_iff in Hh as [Hh Hdn].
-  apply andb_true_iff in Hh as [Hh Hci]. apply andb_true_iff in Hh as [Hh Hb].
-  apply andb_true_iff in Hh as [Hh Hne]. apply andb_true_iff in Hh as [Hsafe Hpw].
+  apply andb_true_iff in Hh as [Hsafe Hpw].
+  destruct (set_up c w) eqn:Epre; [|now apply C03_not_set_up].
+  pose proof Epre as Epre2. unfold set_up in Epre2. apply andb_true_iff in Epre2 as [Hb Hci].
   destruct (view_fields c w e (CUmount [] true) um) as (E1 & E2 & _).
   rewrite step_spec_all by (rewrite ?E1, ?E2; auto).
   rewrite (C03_all_safety_proof c w e um He Hsafe). cbn [andb].
@@ -554,27 +563,16 @@ Proof.
   assert (Hnb : forall x, In x m -> nothing_below c (ks_tab ks') x -> any_at_or_under (ks_tab ks') (build_path c x) = false).
   { intros x Hx Hnb. unfold any_at_or_under. apply existsb_false_forall. intros k Hk0.
     rewrite at_or_under_below by (apply good_root_spec, Hgood, Hx). now apply Hnb. }
-  (* layers in error state carry no mounts, before or after *)
-  assert (Herr : forall x, In x m -> l_state x = st_error ->
-            has_mounts c tab x = false /\ nothing_below c (ks_tab ks') x).
-  { intros x Hx E. unfold error_layers_unmounted in Hne. rewrite forallb_forall in Hne. specialize (Hne x Hx).
-    rewrite E in Hne. cbn in Hne. apply negb_true_iff in Hne. split; [exact Hne|].
-    intros k Hk0. unfold has_mounts, any_at_or_under in Hne.
-    rewrite <- at_or_under_below by (apply good_root_spec, Hgood, Hx).
-    apply (proj1 (existsb_false_forall _ _) Hne). eapply dels_in; [exact D|exact Hk0]. }
   destruct b'; cbn [rclass_of].
-  - apply forallb_forall. intros x Hx. destruct (N.eq_dec (l_state x) st_error) as [E|E].
-    { destruct (Herr x Hx E) as [_ H1]. now rewrite (Hnb x Hx H1). }
-    destruct (Hbz x Hx (Hall x Hx) E) as [H1|[H1|H1]].
+  - apply forallb_forall. intros x Hx.
+    destruct (Hbz x Hx (Hall x Hx)) as [H1|[H1|H1]].
     + now rewrite (Hnb x Hx H1).
     + apply orb_true_iff. right. unfold C03.busy_for_umount. apply orb_true_iff. left.
       apply mb0_in_mount_dirs; assumption.
     + apply orb_true_iff. right. unfold C03.busy_for_umount. apply orb_true_iff. right.
       rewrite <- overlain0_spec. exact H1.
   - destruct (Ha eq_refl) as [_ Hok]. apply forallb_forall. intros x Hx.
-    destruct (N.eq_dec (l_state x) st_error) as [E|E].
-    { destruct (Herr x Hx E) as [H0 H1]. rewrite (Hnb x Hx H1), H0. now rewrite andb_false_r. }
-    destruct (Hok x Hx (Hall x Hx) E) as [Hu Hnb0]. rewrite (Hnb x Hx Hnb0). cbn [negb]. rewrite andb_true_r.
+    destruct (Hok x Hx (Hall x Hx)) as [Hu Hnb0]. rewrite (Hnb x Hx Hnb0). cbn [negb]. rewrite andb_true_r.
     apply negb_true_iff. destruct (existsb (in_mount_dirs c) (users_of um (l_name x))) eqn:Eu; [|reflexivity].
     apply in_mount_dirs_mb0 in Eu. unfold usersb in Hu. congruence.
 Qed.
@@ -594,8 +592,9 @@ Proof.
   intros c w e um n all He Hh. destruct n as [|a r], all; cbn [C03_hyp] in Hh.
   - now apply C03_all_proof.
   - now apply C03_noargs_proof.
-  - destruct (view_fields c w e (CUmount (a :: r) true) um) as (E1 & E2 & _).
-    unfold C03.step_spec. rewrite E1, E2, He. reflexivity.
+  - destruct (set_up c w) eqn:Epre; [|now apply C03_not_set_up].
+    destruct (view_fields c w e (CUmount (a :: r) true) um) as (E1 & E2 & _).
+    unfold C03.step_spec. unfold set_up in Epre. rewrite E1, E2, He, Epre. reflexivity.
   - apply andb_true_iff in Hh as [H1 H2]. now apply C03_single_proof.
 Qed.
 
